@@ -1,1 +1,702 @@
-/-! C02 — property theorems (stub: nothing proved yet). -/
+import B6.Model.WorldRead
+import B6.Lemmas.WorldRead
+/-!
+# C02 — Compact world answers every query like the in-memory world
+
+Both read paths are modelled over one `World` (`B6.Model.WorldRead`): the in-memory world's
+(`FeatureReferencesByID` closure, `traverse`) and the compact world's (`findPathsByPoint`, `FindReferences`,
+`FindRelationsByFeature`, `FindAreasByPoint`, `Traverse`), the latter reading the records the compact builder
+writes from *every* source path and area.  The model mirrors the code **after** the C02 fixes
+(fixes/C02-*.patch) and C37's fix of `BasicWorldBuilder.Finish`.
+
+Theorems, for every world satisfying the two structural invariants that `build` establishes
+(`build_wellTyped`, `build_consistent`) — no bound on the number of features:
+
+* `references_equiv` — the paths through a point: same id set;
+* `areas_by_point_equiv` — the areas with a path through a point: same id set;
+* `references_equiv_partial`, `relations_by_feature_equiv_partial` — `FindReferences` (any type filter) and
+  `FindRelationsByFeature`: the compact answer is always contained in the in-memory answer
+  (`compact_subset_basic`), and the two are equal under the hypothesis `oneLevel`.  The hypothesis is
+  needed: `references_oneLevel_counterexample` (a relation of a path through the point) — recorded as the
+  finding `compact-references-partial`, whose class predicate is `oneLevel` negated, literally;
+* `traverse_scan_equiv` — the segment computation of `traverse` (first node in either direction, end points
+  always nodes) and of `fillPathSegments` (`previous` / `next` with defaults) agree for any node predicate;
+  `count_equiv` — the two intersection tests count the same paths; hence
+* `traverse_equiv` — `Traverse` from any point: same set of `(path, first, last)` segments — without the
+  "no path visits a point twice" hypothesis DESIGN expected to need (both worlds now start from the last
+  position of the origin; before the fix they disagreed, see fixes/C02-compact-read-paths.patch).
+-/
+namespace B6.Props.C02
+open B6.Model.WorldRead B6.Lemmas.WorldRead
+
+/-- ids carry the type of the feature they name, and features refer to ids of the right type -/
+structure WellTyped (w : World) : Prop where
+  paths : ∀ q ∈ w.paths, q.id.t = .path ∧ ∀ r ∈ q.refs, r.t = .point
+  areas : ∀ a ∈ w.areas, a.id.t = .area ∧ ∀ ids ∈ a.polys, ∀ i ∈ ids, i.t = .path
+  relations : ∀ r ∈ w.relations, r.id.t = .relation
+
+/-- how the kept features relate to the source the compact records are written from -/
+structure Consistent (w : World) : Prop where
+  pathFromSource : ∀ q' ∈ w.paths, ∃ q ∈ w.srcPaths, q.id = q'.id ∧ ∀ z, z ∈ q'.refs ↔ z ∈ visits q
+  uniquePaths : (w.srcPaths.map (·.id)).Nodup
+  areaFromSource : ∀ a ∈ w.areas, a ∈ w.srcAreas
+  uniqueAreas : (w.srcAreas.map (·.id)).Nodup
+  pointsExist : ∀ q ∈ w.paths, ∀ r ∈ q.refs, w.points.any (·.id = r) = true
+
+/-! ## membership lemmas -/
+
+theorem mem_directReferrers (w : World) (z y : Id) :
+    y ∈ directReferrers w z ↔
+      (∃ q ∈ w.paths, q.refs.contains z = true ∧ q.id = y) ∨
+      (∃ a ∈ w.areas, (a.polys.any fun ids => ids.contains z) = true ∧ a.id = y) ∨
+      (∃ r ∈ w.relations, (r.members.any fun m => m.1 = z) = true ∧ r.id = y) := by
+  simp only [directReferrers, List.mem_append, List.mem_map, List.mem_filter, or_assoc]
+  constructor
+  · rintro (⟨q, ⟨h1, h2⟩, h3⟩ | ⟨a, ⟨h1, h2⟩, h3⟩ | ⟨r, ⟨h1, h2⟩, h3⟩)
+    · exact Or.inl ⟨q, h1, h2, h3⟩
+    · exact Or.inr (Or.inl ⟨a, h1, h2, h3⟩)
+    · exact Or.inr (Or.inr ⟨r, h1, h2, h3⟩)
+  · rintro (⟨q, h1, h2, h3⟩ | ⟨a, h1, h2, h3⟩ | ⟨r, h1, h2, h3⟩)
+    · exact Or.inl ⟨q, ⟨h1, h2⟩, h3⟩
+    · exact Or.inr (Or.inl ⟨a, ⟨h1, h2⟩, h3⟩)
+    · exact Or.inr (Or.inr ⟨r, ⟨h1, h2⟩, h3⟩)
+
+theorem directReferrers_not_point (w : World) (hw : WellTyped w) (z y : Id) (h : y ∈ directReferrers w z) :
+    y.t ≠ .point := by
+  rcases (mem_directReferrers w z y).mp h with ⟨q, hq, _, rfl⟩ | ⟨a, ha, _, rfl⟩ | ⟨r, hr, _, rfl⟩
+  · rw [(hw.paths q hq).1]; simp
+  · rw [(hw.areas a ha).1]; simp
+  · rw [hw.relations r hr]; simp
+
+theorem closure_not_point (w : World) (hw : WellTyped w) (x y : Id) (h : y ∈ closure w x) : y.t ≠ .point := by
+  obtain ⟨z, _, hyz⟩ := closure_sound w x y h
+  exact directReferrers_not_point w hw z y hyz
+
+/-- the path-typed part of the closure of a point is its direct path referrers -/
+theorem closure_paths (w : World) (hw : WellTyped w) (x y : Id) :
+    (y ∈ closure w x ∧ y.t = .path) ↔ ∃ q ∈ w.paths, q.refs.contains x = true ∧ q.id = y := by
+  constructor
+  · rintro ⟨hc, ht⟩
+    obtain ⟨z, hz, hyz⟩ := closure_sound w x y hc
+    rcases (mem_directReferrers w z y).mp hyz with ⟨q, hq, hqz, rfl⟩ | ⟨a, ha, _, rfl⟩ | ⟨r, hr, _, rfl⟩
+    · have hzt : z.t = .point := (hw.paths q hq).2 z (by simpa using hqz)
+      cases hz with
+      | inl hz => subst hz; exact ⟨q, hq, hqz, rfl⟩
+      | inr hz => exact absurd hzt (closure_not_point w hw x z hz)
+    · rw [(hw.areas a ha).1] at ht; simp at ht
+    · rw [hw.relations r hr] at ht; simp at ht
+  · rintro ⟨q, hq, hqx, rfl⟩
+    refine ⟨direct_subset_closure w x q.id ?_, (hw.paths q hq).1⟩
+    exact (mem_directReferrers w x q.id).mpr (Or.inl ⟨q, hq, hqx, rfl⟩)
+
+theorem mem_pointPaths (w : World) (x y : Id) :
+    y ∈ pointPaths w x ↔ ∃ q ∈ w.srcPaths, x ∈ visits q ∧ q.id = y := by
+  simp only [pointPaths, List.mem_flatMap, List.mem_filterMap]
+  constructor
+  · rintro ⟨q, hq, r, hr, hry⟩
+    by_cases h : r = x
+    · subst h; simp at hry; exact ⟨q, hq, hr, hry⟩
+    · simp [h] at hry
+  · rintro ⟨q, hq, hx, rfl⟩
+    exact ⟨q, hq, x, hx, by simp⟩
+
+theorem mem_pathExists (w : World) (y : Id) : pathExists w y = true ↔ ∃ q ∈ w.paths, q.id = y := by
+  simp [pathExists, List.any_eq_true]
+
+theorem unique_by_id {α} (key : α → Id) (l : List α) (hnd : (l.map key).Nodup) (a b : α)
+    (ha : a ∈ l) (hb : b ∈ l) (h : key a = key b) : a = b := by
+  induction l with
+  | nil => simp at ha
+  | cons c t ih =>
+    simp only [List.map_cons, List.nodup_cons] at hnd
+    simp only [List.mem_cons] at ha hb
+    cases ha with
+    | inl ha =>
+      cases hb with
+      | inl hb => rw [ha, hb]
+      | inr hb => exact absurd (List.mem_map.mpr ⟨b, hb, by rw [← h, ha]⟩) hnd.1
+    | inr ha =>
+      cases hb with
+      | inl hb => exact absurd (List.mem_map.mpr ⟨a, ha, by rw [h, hb]⟩) hnd.1
+      | inr hb => exact ih hnd.2 ha hb
+
+/-- a kept path through `x`, seen from the compact records -/
+theorem kept_path_iff (w : World) (hc : Consistent w) (x y : Id) :
+    (∃ q ∈ w.paths, q.refs.contains x = true ∧ q.id = y) ↔ (y ∈ pointPaths w x ∧ pathExists w y = true) := by
+  rw [mem_pointPaths, mem_pathExists]
+  constructor
+  · rintro ⟨q', hq', hx, rfl⟩
+    obtain ⟨q, hq, hid, hrefs⟩ := hc.pathFromSource q' hq'
+    exact ⟨⟨q, hq, (hrefs x).mp (by simpa using hx), hid⟩, ⟨q', hq', rfl⟩⟩
+  · rintro ⟨⟨q, hq, hx, rfl⟩, ⟨q', hq', hid⟩⟩
+    obtain ⟨q2, hq2, hid2, hrefs⟩ := hc.pathFromSource q' hq'
+    have : q2 = q := unique_by_id (·.id) w.srcPaths hc.uniquePaths q2 q hq2 hq (by rw [hid2, hid])
+    subst this
+    exact ⟨q', hq', by simpa using (hrefs x).mpr hx, hid⟩
+
+/-! ## the paths through a point -/
+
+/-- `FindReferences(point, FeatureTypePath)`: the two worlds return the same paths. -/
+theorem references_equiv (w : World) (hw : WellTyped w) (hc : Consistent w) (x : Id) (hx : x.t = .point) (y : Id) :
+    y ∈ refsB w x [.path] ↔ y ∈ refsC w x [.path] := by
+  have hB : y ∈ refsB w x [.path] ↔ (y ∈ closure w x ∧ y.t = .path) := by
+    simp [refsB, List.mem_filter]
+  have hC : y ∈ refsC w x [.path] ↔ (y ∈ pointPaths w x ∧ pathExists w y = true) := by
+    simp [refsC, hx, findPathsByPoint, List.mem_filter, mem_dedup]
+  rw [hB, hC, closure_paths w hw, kept_path_iff w hc]
+
+/-! ## FindReferences / FindRelationsByFeature -/
+
+theorem mem_relsC (w : World) (x y : Id) :
+    y ∈ relsC w x ↔ hasFeature w x = true ∧ ∃ r ∈ w.relations, (r.members.any fun m => m.1 = x) = true ∧ r.id = y := by
+  unfold relsC
+  by_cases h : hasFeature w x = true
+  · simp only [h, Bool.not_true, Bool.false_eq_true, ite_false, mem_dedup, List.mem_map, List.mem_filter, true_and]
+    constructor
+    · rintro ⟨r, ⟨h1, h2⟩, h3⟩; exact ⟨r, h1, h2, h3⟩
+    · rintro ⟨r, h1, h2, h3⟩; exact ⟨r, ⟨h1, h2⟩, h3⟩
+  · have h' : hasFeature w x = false := by simpa using h
+    simp [h']
+
+/-- second level of the closure: a referrer of a direct referrer is found -/
+theorem direct2_subset_closure (w : World) (x z y : Id) (hz : z ∈ directReferrers w x) (hy : y ∈ directReferrers w z)
+    (hfuel : 1 ≤ (allIds w).length) : y ∈ closure w x := by
+  unfold closure
+  obtain ⟨n, hn⟩ : ∃ n, (allIds w).length + 1 = n + 2 := ⟨(allIds w).length - 1, by omega⟩
+  rw [hn]
+  have hz1 : z ∈ dedup ((List.flatMap (directReferrers w) [x]).filter fun y => !([] : List Id).contains y) := by
+    rw [mem_dedup]; simp [hz]
+  unfold expand
+  simp only
+  split
+  · rename_i he
+    have hne := List.isEmpty_iff.mp he
+    rw [hne] at hz1; simp at hz1
+  · generalize hnew : dedup ((List.flatMap (directReferrers w) [x]).filter fun y => !([] : List Id).contains y) = new1 at hz1
+    simp only [List.nil_append]
+    by_cases hyn : y ∈ new1
+    · exact seen_subset_expand w _ _ _ y hyn
+    · unfold expand
+      simp only
+      have hy2 : y ∈ dedup ((List.flatMap (directReferrers w) new1).filter fun y => !new1.contains y) := by
+        rw [mem_dedup, List.mem_filter]
+        refine ⟨List.mem_flatMap.mpr ⟨z, hz1, hy⟩, ?_⟩
+        simpa using hyn
+      split
+      · rename_i he
+        have hne := List.isEmpty_iff.mp he
+        rw [hne] at hy2; simp at hy2
+      · exact seen_subset_expand w _ _ _ y (List.mem_append_right _ hy2)
+
+theorem mem_allIds_of_path (w : World) (q : Path) (hq : q ∈ w.paths) : 1 ≤ (allIds w).length := by
+  have : q.id ∈ allIds w := by
+    simp only [allIds, List.mem_append, List.mem_map]
+    exact Or.inl (Or.inl (Or.inr ⟨q, hq, rfl⟩))
+  cases h : allIds w with
+  | nil => rw [h] at this; simp at this
+  | cons a t => simp
+
+theorem mem_areasC (w : World) (x y : Id) :
+    y ∈ areasC w x ↔ x.t = .point ∧ hasFeature w x = true ∧
+      (∃ pid, pid ∈ pointPaths w x ∧ pathExists w pid = true ∧
+        ∃ a ∈ w.srcAreas, (a.polys.any fun ids => ids.contains pid) = true ∧ a.id = y) ∧
+      (w.areas.any (·.id = y)) = true := by
+  unfold areasC
+  by_cases h1 : x.t = .point
+  · by_cases h2 : hasFeature w x = true
+    · simp only [h1, h2, ne_eq, not_true_eq_false, decide_false, Bool.not_true, Bool.or_self, Bool.false_eq_true,
+        ite_false, List.mem_filter, mem_dedup, List.mem_flatMap, List.mem_map, true_and]
+      constructor
+      · rintro ⟨⟨pid, ⟨hp1, hp2⟩, a, ⟨ha1, ha2⟩, ha3⟩, hex⟩
+        exact ⟨⟨pid, hp1, hp2, a, ha1, ha2, ha3⟩, hex⟩
+      · rintro ⟨⟨pid, hp1, hp2, a, ha1, ha2, ha3⟩, hex⟩
+        exact ⟨⟨pid, ⟨hp1, hp2⟩, a, ⟨ha1, ha2⟩, ha3⟩, hex⟩
+    · have h2' : hasFeature w x = false := by simpa using h2
+      simp [h1, h2']
+  · simp [h1]
+
+/-- the area-typed part of the closure of a point: areas with a kept path through the point -/
+theorem closure_areas (w : World) (hw : WellTyped w) (x : Id) (hx : x.t = .point) (y : Id) :
+    (y ∈ closure w x ∧ y.t = .area) ↔
+      ∃ a ∈ w.areas, a.id = y ∧ ∃ q ∈ w.paths, q.refs.contains x = true ∧ (a.polys.any fun ids => ids.contains q.id) = true := by
+  constructor
+  · rintro ⟨hc, ht⟩
+    obtain ⟨z, hz, hyz⟩ := closure_sound w x y hc
+    rcases (mem_directReferrers w z y).mp hyz with ⟨q, hq, _, rfl⟩ | ⟨a, ha, haz, rfl⟩ | ⟨r, hr, _, rfl⟩
+    · rw [(hw.paths q hq).1] at ht; simp at ht
+    · -- z is one of the area's paths, hence path-typed, hence in the closure (not the point itself)
+      have hzt : z.t = .path := by
+        rw [List.any_eq_true] at haz
+        obtain ⟨ids, hids, hz'⟩ := haz
+        exact (hw.areas a ha).2 ids hids z (by simpa using hz')
+      have hzc : z ∈ closure w x := by
+        cases hz with
+        | inl hz => rw [hz, hx] at hzt; simp at hzt
+        | inr hz => exact hz
+      obtain ⟨q, hq, hqx, hqz⟩ := (closure_paths w hw x z).mp ⟨hzc, hzt⟩
+      exact ⟨a, ha, rfl, q, hq, hqx, by rw [hqz]; exact haz⟩
+    · rw [hw.relations r hr] at ht; simp at ht
+  · rintro ⟨a, ha, rfl, q, hq, hqx, haq⟩
+    refine ⟨?_, (hw.areas a ha).1⟩
+    apply direct2_subset_closure w x q.id a.id
+    · exact (mem_directReferrers w x q.id).mpr (Or.inl ⟨q, hq, hqx, rfl⟩)
+    · exact (mem_directReferrers w q.id a.id).mpr (Or.inr (Or.inl ⟨a, ha, haq, rfl⟩))
+    · exact mem_allIds_of_path w q hq
+
+/-- `FindAreasByPoint`: the two worlds return the same areas. -/
+theorem areas_by_point_equiv (w : World) (hw : WellTyped w) (hc : Consistent w) (x : Id) (hx : x.t = .point) (y : Id) :
+    y ∈ areasB w x ↔ y ∈ areasC w x := by
+  have hB : y ∈ areasB w x ↔ (y ∈ closure w x ∧ y.t = .area) := by
+    simp [areasB, refsB, List.mem_filter]
+  rw [hB, closure_areas w hw x hx, mem_areasC]
+  constructor
+  · rintro ⟨a, ha, rfl, q, hq, hqx, haq⟩
+    have hk := (kept_path_iff w hc x q.id).mp ⟨q, hq, hqx, rfl⟩
+    refine ⟨hx, ?_, ⟨q.id, hk.1, hk.2, a, hc.areaFromSource a ha, haq, rfl⟩, ?_⟩
+    · have := hc.pointsExist q hq x (by simpa using hqx)
+      simp [hasFeature, hx, this]
+    · rw [List.any_eq_true]; exact ⟨a, ha, by simp⟩
+  · rintro ⟨_, _, ⟨pid, hp1, hp2, a', ha', hap, rfl⟩, hex⟩
+    rw [List.any_eq_true] at hex
+    obtain ⟨a, ha, haid⟩ := hex
+    have haid' : a.id = a'.id := by simpa using haid
+    have : a = a' := unique_by_id (·.id) w.srcAreas hc.uniqueAreas a a' (hc.areaFromSource a ha) ha' haid'
+    subst this
+    obtain ⟨q, hq, hqx, hqid⟩ := (kept_path_iff w hc x pid).mpr ⟨hp1, hp2⟩
+    exact ⟨a, ha, rfl, q, hq, hqx, by rw [hqid]; exact hap⟩
+
+/-- the compact world never returns a referrer the in-memory world does not return -/
+theorem compact_subset_basic (w : World) (hw : WellTyped w) (hc : Consistent w) (x : Id) (ts : List FT) (y : Id)
+    (h : y ∈ refsC w x ts) : y ∈ refsB w x ts := by
+  simp only [refsC, List.mem_append] at h
+  simp only [refsB, List.mem_filter]
+  rcases h with (h | h) | h
+  · -- a path of the point
+    by_cases hcond : (x.t = .point && (ts.isEmpty || ts.contains .path)) = true
+    · rw [if_pos hcond] at h
+      simp only [List.mem_filter, findPathsByPoint, mem_dedup] at h
+      obtain ⟨q, hq, hqx, hqid⟩ := (kept_path_iff w hc x y).mpr h
+      have := (closure_paths w hw x y).mpr ⟨q, hq, hqx, hqid⟩
+      refine ⟨this.1, ?_⟩
+      rw [this.2]
+      simp only [Bool.and_eq_true, decide_eq_true_eq] at hcond
+      exact hcond.2
+    · rw [if_neg hcond] at h; exact absurd h (by simp)
+  · -- a direct relation
+    by_cases hcond : (ts.isEmpty || ts.contains .relation) = true
+    · rw [if_pos hcond] at h
+      obtain ⟨_, r, hr, hrx, hrid⟩ := (mem_relsC w x y).mp h
+      refine ⟨direct_subset_closure w x y ((mem_directReferrers w x y).mpr (Or.inr (Or.inr ⟨r, hr, hrx, hrid⟩))), ?_⟩
+      rw [← hrid, hw.relations r hr]; exact hcond
+    · rw [if_neg hcond] at h; exact absurd h (by simp)
+  · -- an area of the point
+    by_cases hcond : (x.t = .point && (ts.isEmpty || ts.contains .area)) = true
+    · rw [if_pos hcond] at h
+      simp only [Bool.and_eq_true, decide_eq_true_eq] at hcond
+      have := (areas_by_point_equiv w hw hc x hcond.1 y).mpr h
+      simp only [areasB, refsB, List.mem_filter] at this
+      refine ⟨this.1, ?_⟩
+      have ht : y.t = .area := by simpa using this.2
+      rw [ht]; exact hcond.2
+    · rw [if_neg hcond] at h; exact absurd h (by simp)
+
+/-- `FindReferences` with any type filter: equal id sets whenever the in-memory answer has no referrer
+beyond the compact world's one-level lookup. -/
+theorem references_equiv_partial (w : World) (hw : WellTyped w) (hc : Consistent w) (x : Id) (ts : List FT)
+    (h1 : oneLevel w x ts = true) (y : Id) : y ∈ refsB w x ts ↔ y ∈ refsC w x ts := by
+  constructor
+  · intro hy
+    have := List.all_eq_true.mp h1 y hy
+    simpa using this
+  · exact compact_subset_basic w hw hc x ts y
+
+theorem mem_refsC_relation (w : World) (x y : Id) : y ∈ refsC w x [.relation] ↔ y ∈ relsC w x := by
+  simp [refsC]
+
+/-- `FindRelationsByFeature`: equal id sets under the same hypothesis. -/
+theorem relations_by_feature_equiv_partial (w : World) (hw : WellTyped w) (hc : Consistent w) (x : Id)
+    (h1 : oneLevel w x [.relation] = true) (y : Id) : y ∈ relsB w x ↔ y ∈ relsC w x := by
+  rw [← mem_refsC_relation]
+  exact references_equiv_partial w hw hc x [.relation] h1 y
+
+/-! ## the worlds `build` produces satisfy the invariants -/
+
+/-- what a source has to satisfy: ids typed by the feature they name, references typed, path and area ids distinct -/
+structure SourceOK (src : Source) : Prop where
+  paths : ∀ q ∈ srcPaths src, q.id.t = .path ∧ ∀ r ∈ q.refs, r.t = .point
+  areas : ∀ a ∈ srcAreas src, a.id.t = .area ∧ ∀ ids ∈ a.polys, ∀ i ∈ ids, i.t = .path
+  relations : ∀ r ∈ srcRelations src, r.id.t = .relation
+  uniquePaths : ((srcPaths src).map (·.id)).Nodup
+  uniqueAreas : ((srcAreas src).map (·.id)).Nodup
+
+theorem mem_finalRefs (p : Path) (z : Id) : z ∈ finalRefs p ↔ z ∈ p.refs := by
+  unfold finalRefs; split <;> simp
+
+theorem mem_build_paths (src : Source) (q' : Path) :
+    q' ∈ (build src).paths ↔ ∃ q ∈ srcPaths src, pathValid (srcPoints src) q = true ∧ q' = { q with refs := finalRefs q } := by
+  simp only [build, List.mem_map, List.mem_filter]
+  constructor
+  · rintro ⟨q, ⟨h1, h2⟩, rfl⟩; exact ⟨q, h1, h2, rfl⟩
+  · rintro ⟨q, h1, h2, rfl⟩; exact ⟨q, ⟨h1, h2⟩, rfl⟩
+
+theorem build_wellTyped (src : Source) (h : SourceOK src) : WellTyped (build src) := by
+  constructor
+  · intro q' hq'
+    obtain ⟨q, hq, _, rfl⟩ := (mem_build_paths src q').mp hq'
+    exact ⟨(h.paths q hq).1, fun r hr => (h.paths q hq).2 r ((mem_finalRefs q r).mp hr)⟩
+  · intro a ha
+    have : a ∈ srcAreas src := by
+      simp only [build, List.mem_filter] at ha; exact ha.1
+    exact h.areas a this
+  · intro r hr
+    exact h.relations r (by simpa [build] using hr)
+
+/-- a closed list of at least two references loses no member when its last element is dropped -/
+theorem mem_dropLast_of_closed (refs : List Id) (hc : closedRefs refs = true) (hl : 2 ≤ refs.length) (z : Id) :
+    z ∈ refs.dropLast ↔ z ∈ refs := by
+  constructor
+  · exact fun h => List.dropLast_subset refs h
+  · intro hz
+    match refs, hl with
+    | a :: b :: t, _ =>
+      have hne : (a :: b :: t) ≠ [] := by simp
+      have hsplit := List.dropLast_concat_getLast hne
+      rw [← hsplit, List.mem_append] at hz
+      cases hz with
+      | inl hz => exact hz
+      | inr hz =>
+        simp only [List.mem_singleton] at hz
+        -- z is the last element, which equals the head, which survives dropLast
+        have hlast : (a :: b :: t).getLast? = some ((a :: b :: t).getLast hne) := List.getLast?_eq_some_getLast hne
+        simp only [closedRefs, List.head?_cons, hlast, decide_eq_true_eq] at hc
+        rw [hz, ← hc]
+        simp [List.dropLast]
+
+theorem build_consistent (src : Source) (h : SourceOK src) : Consistent (build src) := by
+  constructor
+  · intro q' hq'
+    obtain ⟨q, hq, hv, rfl⟩ := (mem_build_paths src q').mp hq'
+    refine ⟨q, by simpa [build] using hq, rfl, ?_⟩
+    intro z
+    simp only [mem_finalRefs]
+    unfold visits
+    split
+    · rename_i hcl
+      have hl : 2 ≤ q.refs.length := by
+        simp only [pathValid, Bool.and_eq_true, decide_eq_true_eq] at hv
+        exact hv.1.1
+      exact (mem_dropLast_of_closed q.refs hcl hl z).symm
+    · rfl
+  · simpa [build] using h.uniquePaths
+  · intro a ha
+    simp only [build, List.mem_filter] at ha ⊢; exact ha.1
+  · simpa [build] using h.uniqueAreas
+  · intro q' hq' r hr
+    obtain ⟨q, hq, hv, rfl⟩ := (mem_build_paths src q').mp hq'
+    have hr' : r ∈ q.refs := (mem_finalRefs q r).mp hr
+    simp only [pathValid, Bool.and_eq_true, List.all_eq_true] at hv
+    have := hv.1.2 r hr'
+    simp only [locOf, Option.isSome_map] at this
+    rw [List.any_eq_true]
+    cases hf : (srcPoints src).find? (fun p => decide (p.id = r)) with
+    | none => rw [hf] at this; simp at this
+    | some p =>
+      exact ⟨p, by simpa [build] using List.mem_of_find?_eq_some hf, by simpa using List.find?_some hf⟩
+
+/-! ## Traverse -/
+
+theorem upFrom_ge (p : Nat → Bool) (k : Nat) : ∀ (i j : Nat), upFrom p i k = some j → i ≤ j := by
+  induction k with
+  | zero => intro i j h; simp [upFrom] at h
+  | succ k ih =>
+    intro i j h
+    unfold upFrom at h
+    split at h
+    · simp at h; omega
+    · have := ih (i + 1) j h; omega
+
+theorem downFrom_lt (p : Nat → Bool) (k : Nat) : ∀ (i j : Nat), 0 < i → downFrom p i k = some j → j < i := by
+  induction k with
+  | zero => intro i j _ h; simp [downFrom] at h
+  | succ k ih =>
+    intro i j hi h
+    unfold downFrom at h
+    split at h
+    · simp at h; omega
+    · by_cases h1 : 0 < i - 1
+      · have := ih (i - 1) j h1 h; omega
+      · -- i = 1: the remaining candidates are all 0 - 1 = 0; whatever is found is below i
+        have hi1 : i - 1 = 0 := by omega
+        rw [hi1] at h
+        have : ∀ k j, downFrom p 0 k = some j → j = 0 := by
+          intro k
+          induction k with
+          | zero => intro j h; simp [downFrom] at h
+          | succ k ihk =>
+            intro j h
+            unfold downFrom at h
+            split at h
+            · simp at h; omega
+            · exact ihk j (by simpa using h)
+        have := this k j h
+        omega
+
+theorem upFrom_succ (p : Nat → Bool) (i k : Nat) : upFrom p i (k + 1) = if p i = true then some i else upFrom p (i + 1) k := rfl
+theorem downFrom_succ (p : Nat → Bool) (i k : Nat) :
+    downFrom p i (k + 1) = if p (i - 1) = true then some (i - 1) else downFrom p (i - 1) k := rfl
+
+/-- a loop that also stops at the last candidate = the loop over the others, defaulting to the last -/
+theorem upFrom_last (P Q : Nat → Bool) (k : Nat) : ∀ (s : Nat), (∀ j, s ≤ j → j < s + k → P j = Q j) → P (s + k) = true →
+    upFrom P s (k + 1) = some ((upFrom Q s k).getD (s + k)) := by
+  induction k with
+  | zero =>
+    intro s _ hl
+    simp only [Nat.add_zero] at hl
+    simp [upFrom, hl]
+  | succ k ih =>
+    intro s hpq hl
+    have h0 : P s = Q s := hpq s (Nat.le_refl _) (by omega)
+    rw [upFrom_succ P s (k + 1), upFrom_succ Q s k, h0]
+    by_cases hq : Q s = true
+    · simp [hq]
+    · have hq' : Q s = false := by simpa using hq
+      simp only [hq', Bool.false_eq_true, ite_false]
+      have := ih (s + 1) (fun j h1 h2 => hpq j (by omega) (by omega)) (by rw [show s + 1 + k = s + (k + 1) by omega]; exact hl)
+      rw [this, show s + 1 + k = s + (k + 1) by omega]
+
+theorem downFrom_last (P Q : Nat → Bool) (k : Nat) : ∀ (i : Nat), i = k + 1 → (∀ j, 1 ≤ j → j < i → P j = Q j) → P 0 = true →
+    downFrom P i (k + 1) = some ((downFrom Q i k).getD 0) := by
+  induction k with
+  | zero => intro i hi _ h0; subst hi; simp [downFrom, h0]
+  | succ k ih =>
+    intro i hi hpq h0
+    have h1 : P (i - 1) = Q (i - 1) := hpq (i - 1) (by omega) (by omega)
+    rw [downFrom_succ P i (k + 1), downFrom_succ Q i k, h1]
+    by_cases hq : Q (i - 1) = true
+    · simp [hq]
+    · have hq' : Q (i - 1) = false := by simpa using hq
+      simp only [hq', Bool.false_eq_true, ite_false]
+      exact ih (i - 1) (by omega) (fun j h1 h2 => hpq j h1 (by omega)) h0
+
+/-- **the scanning of `traverse` and of `fillPathSegments` agree**: for any test of the intermediate points,
+"first node in each direction, end points are nodes" (in-memory world) and "`previous` / `next` with the end
+points as defaults, dropped when equal to the origin" (compact world) give the same segments. -/
+theorem traverse_scan_equiv (node : Nat → Bool) (qid : Id) (n idx : Nat) (h : idx < n) (s : Seg) :
+    s ∈ scanB node qid n idx ↔ s ∈ scanC node qid n idx := by
+  -- forward
+  have hup : (upFrom (fun i => decide (i = 0) || decide (i + 1 = n) || node i) (idx + 1) (n - (idx + 1))).toList.map (Seg.mk qid idx) =
+      (if (upFrom node (idx + 1) (n - 1 - (idx + 1))).getD (n - 1) ≠ idx
+        then [Seg.mk qid idx ((upFrom node (idx + 1) (n - 1 - (idx + 1))).getD (n - 1))] else []) := by
+    by_cases hlast : idx + 1 < n
+    · have hk : n - (idx + 1) = (n - 1 - (idx + 1)) + 1 := by omega
+      rw [hk, upFrom_last _ node (n - 1 - (idx + 1)) (idx + 1)
+        (by intro j h1 h2
+            have : ¬ j = 0 := by omega
+            have : ¬ j + 1 = n := by omega
+            simp [*])
+        (by have : idx + 1 + (n - 1 - (idx + 1)) + 1 = n := by omega
+            simp [this])]
+      have hne : (upFrom node (idx + 1) (n - 1 - (idx + 1))).getD (idx + 1 + (n - 1 - (idx + 1))) ≠ idx := by
+        cases hu : upFrom node (idx + 1) (n - 1 - (idx + 1)) with
+        | none => simp; omega
+        | some j => have := upFrom_ge node _ _ _ hu; simp; omega
+      have he : idx + 1 + (n - 1 - (idx + 1)) = n - 1 := by omega
+      rw [he] at hne ⊢
+      simp [hne]
+    · have hk : n - (idx + 1) = 0 := by omega
+      have hk2 : n - 1 - (idx + 1) = 0 := by omega
+      have : n - 1 = idx := by omega
+      simp [hk, upFrom, this]
+  -- backward
+  have hdown : (downFrom (fun i => decide (i = 0) || decide (i + 1 = n) || node i) idx idx).toList.map (Seg.mk qid idx) =
+      (if (downFrom node idx (idx - 1)).getD 0 ≠ idx then [Seg.mk qid idx ((downFrom node idx (idx - 1)).getD 0)] else []) := by
+    by_cases h0 : 0 < idx
+    · obtain ⟨k, hk⟩ : ∃ k, idx = k + 1 := ⟨idx - 1, by omega⟩
+      have hk' : idx - 1 = k := by omega
+      rw [hk'] 
+      conv => lhs; rw [show (downFrom (fun i => decide (i = 0) || decide (i + 1 = n) || node i) idx idx) =
+        (downFrom (fun i => decide (i = 0) || decide (i + 1 = n) || node i) idx (k + 1)) by rw [← hk]]
+      rw [downFrom_last _ node k idx hk
+        (by intro j h1 h2
+            have : ¬ j = 0 := by omega
+            have : ¬ j + 1 = n := by omega
+            simp [*])
+        (by simp)]
+      have hne : (downFrom node idx k).getD 0 ≠ idx := by
+        cases hd : downFrom node idx k with
+        | none => simp; omega
+        | some j => have := downFrom_lt node _ _ _ h0 hd; simp; omega
+      simp [hne]
+    · have : idx = 0 := by omega
+      subst this
+      simp [downFrom]
+  unfold scanB scanC
+  simp only [List.mem_append]
+  rw [hup, hdown]
+  constructor
+  · rintro (h | h)
+    · exact Or.inr h
+    · exact Or.inl h
+  · rintro (h | h)
+    · exact Or.inr h
+    · exact Or.inl h
+
+/-- kept paths have distinct ids -/
+abbrev UniqueKept (w : World) : Prop := (w.paths.map (·.id)).Nodup
+
+theorem nodup_dedup (l : List Id) : (dedup l).Nodup := by
+  induction l with
+  | nil => simp [dedup]
+  | cons a t ih =>
+    unfold dedup at *
+    simp only [List.foldr_cons]
+    split
+    · exact ih
+    · rename_i h
+      exact List.nodup_cons.mpr ⟨by simpa using h, ih⟩
+
+/-- the two intersection tests count the same thing: the distinct kept paths through the point -/
+theorem count_equiv (w : World) (hc : Consistent w) (hu : UniqueKept w) (p : Id) : pathCountB w p = countPaths w p := by
+  unfold pathCountB countPaths
+  have h1 : ((w.paths.filter fun q => q.refs.contains p).map (·.id)).Nodup :=
+    List.Nodup.sublist (List.Sublist.map _ List.filter_sublist) hu
+  have h2 : ((dedup (pointPaths w p)).filter (pathExists w)).Nodup :=
+    List.Nodup.sublist List.filter_sublist (nodup_dedup _)
+  have hperm : ((w.paths.filter fun q => q.refs.contains p).map (·.id)).Perm ((dedup (pointPaths w p)).filter (pathExists w)) := by
+    rw [List.perm_ext_iff_of_nodup h1 h2]
+    intro y
+    simp only [List.mem_map, List.mem_filter, mem_dedup]
+    have := kept_path_iff w hc p y
+    constructor
+    · rintro ⟨q, ⟨hq, hqp⟩, hid⟩; exact this.mp ⟨q, hq, hqp, hid⟩
+    · intro h
+      obtain ⟨q, hq, hqp, hid⟩ := this.mpr h
+      exact ⟨q, ⟨hq, hqp⟩, hid⟩
+  have := hperm.length_eq
+  simpa using this
+
+theorem interior_equiv (w : World) (hc : Consistent w) (hu : UniqueKept w) (refs : List Id) :
+    interiorB w refs = interiorC w refs := by
+  funext i
+  unfold interiorB interiorC isNodeC
+  cases refs[i]? with
+  | none => rfl
+  | some pid => simp only [count_equiv w hc hu pid]; exact Bool.or_comm _ _
+
+theorem segments_equiv (w : World) (hc : Consistent w) (hu : UniqueKept w) (x : Id) (q : Path) (s : Seg) :
+    s ∈ segmentsB w x q ↔ s ∈ segmentsC w x q := by
+  unfold segmentsB segmentsC
+  cases hl : lastIndexOf q.refs x with
+  | none => simp
+  | some idx =>
+    simp only
+    rw [interior_equiv w hc hu]
+    by_cases hlt : idx < q.refs.length
+    · exact traverse_scan_equiv _ _ _ _ hlt s
+    · -- `lastIndexOf` only returns positions of the list
+      exfalso
+      have : ∀ (l : List Nat) (acc : Option Nat), (∀ i ∈ l, i < q.refs.length) → (∀ a, acc = some a → a < q.refs.length) →
+          ∀ a, l.foldl (fun acc i => if q.refs[i]? = some x then some i else acc) acc = some a → a < q.refs.length := by
+        intro l
+        induction l with
+        | nil => intro acc _ hacc a ha; exact hacc a (by simpa using ha)
+        | cons b t ih =>
+          intro acc hl' hacc a ha
+          simp only [List.foldl_cons] at ha
+          apply ih _ (fun i hi => hl' i (by simp [hi])) _ a ha
+          intro a' ha'
+          split at ha'
+          · simp at ha'; rw [← ha']; exact hl' b (by simp)
+          · exact hacc a' ha'
+      exact hlt (this (List.range q.refs.length) none (fun i hi => by simpa using hi) (by simp) idx hl)
+
+theorem findPath_iff (w : World) (hu : UniqueKept w) (pid : Id) (q : Path) :
+    findPath w.paths pid = some q ↔ q ∈ w.paths ∧ q.id = pid := by
+  unfold findPath
+  constructor
+  · intro h
+    exact ⟨List.mem_of_find?_eq_some h, by simpa using List.find?_some h⟩
+  · rintro ⟨hq, hid⟩
+    cases hf : w.paths.find? (fun p => decide (p.id = pid)) with
+    | none =>
+      have := List.find?_eq_none.mp hf q hq
+      simp [hid] at this
+    | some q' =>
+      have h1 : q' ∈ w.paths := List.mem_of_find?_eq_some hf
+      have h2 : q'.id = pid := by simpa using List.find?_some hf
+      rw [unique_by_id (·.id) w.paths hu q' q h1 hq (by rw [h2, hid])]
+
+/-- **`Traverse`: the two worlds return the same set of segments**, for every point id (the closed-way and
+revisited-point cases included: both start from the last position of the origin along the path). -/
+theorem traverse_equiv (w : World) (hc : Consistent w) (hu : UniqueKept w) (x : Id) (hx : x.t = .point) (s : Seg) :
+    s ∈ traverseB w x ↔ s ∈ traverseC w x := by
+  unfold traverseB traverseC
+  simp only [List.mem_flatMap, findPathsByPoint, mem_dedup]
+  constructor
+  · intro h
+    by_cases hf : hasFeature w x = true
+    · simp only [hf, Bool.not_true, Bool.false_eq_true, ite_false, List.mem_flatMap, List.mem_filter] at h
+      obtain ⟨q, ⟨hq, hqx⟩, hs⟩ := h
+      have hk := (kept_path_iff w hc x q.id).mp ⟨q, hq, hqx, rfl⟩
+      refine ⟨q.id, hk.1, ?_⟩
+      rw [(findPath_iff w hu q.id q).mpr ⟨hq, rfl⟩]
+      exact (segments_equiv w hc hu x q s).mp hs
+    · have hf' : hasFeature w x = false := by simpa using hf
+      simp [hf'] at h
+  · rintro ⟨pid, hp, hs⟩
+    cases hfp : findPath w.paths pid with
+    | none => rw [hfp] at hs; simp at hs
+    | some q =>
+      rw [hfp] at hs
+      simp only at hs
+      obtain ⟨hq, hid⟩ := (findPath_iff w hu pid q).mp hfp
+      obtain ⟨q', hq', hqx, hid'⟩ := (kept_path_iff w hc x pid).mpr ⟨hp, (mem_pathExists w pid).mpr ⟨q, hq, hid⟩⟩
+      have : q' = q := unique_by_id (·.id) w.paths hu q' q hq' hq (by rw [hid', hid])
+      subst this
+      have hex : hasFeature w x = true := by
+        have := hc.pointsExist q' hq' x (by simpa using hqx)
+        simp [hasFeature, hx, this]
+      simp only [hex, Bool.not_true, Bool.false_eq_true, ite_false, List.mem_flatMap, List.mem_filter]
+      exact ⟨q', ⟨hq', hqx⟩, (segments_equiv w hc hu x q' s).mpr hs⟩
+
+theorem build_uniqueKept (src : Source) (h : SourceOK src) : UniqueKept (build src) := by
+  unfold UniqueKept
+  have : ((build src).paths.map (·.id)) = ((srcPaths src).filter (pathValid (srcPoints src))).map (·.id) := by
+    simp [build, List.map_map, Function.comp_def]
+  rw [this]
+  exact List.Nodup.sublist (List.Sublist.map _ List.filter_sublist) h.uniquePaths
+
+/-! ## non-vacuity, and the witness of the known disagreement -/
+
+def n (v : Nat) : Id := ⟨.point, 0, v⟩
+def wy (v : Nat) : Id := ⟨.path, 2, v⟩
+def pt (v : Nat) : Feature := .point { id := n v, loc := toString v, tags := [("point", toString v)] }
+
+/-- points 1..4, a closed clockwise way 10 = [1,2,3,1] (stored inverted) with its area, an open way 11 = [4,1],
+a route relation 50 over way 11 and a relation 51 over relation 50 -/
+def demo : Source :=
+  [pt 1, pt 2, pt 3, pt 4,
+   .path { id := wy 10, refs := [n 1, n 2, n 3, n 1], loopOk := true, cw := true, tags := [] },
+   .area { id := ⟨.area, 2, 10⟩, polys := [[wy 10]], tags := [] },
+   .path { id := wy 11, refs := [n 4, n 1], loopOk := false, cw := false, tags := [] },
+   .relation { id := ⟨.relation, 1, 50⟩, members := [(wy 11, "")], tags := [] },
+   .relation { id := ⟨.relation, 1, 51⟩, members := [(⟨.relation, 1, 50⟩, "")], tags := [] }]
+
+example : SourceOK demo := by
+  constructor <;> decide
+
+example : refsB (build demo) (n 1) [.path] = [wy 10, wy 11] ∧ refsC (build demo) (n 1) [.path] = [wy 10, wy 11] := by decide
+
+example : areasB (build demo) (n 2) = [⟨.area, 2, 10⟩] ∧ areasC (build demo) (n 2) = [⟨.area, 2, 10⟩] := by decide
+
+example : traverseB (build demo) (n 1) = [⟨wy 10, 3, 0⟩, ⟨wy 11, 1, 0⟩] ∧ traverseC (build demo) (n 1) = [⟨wy 10, 3, 0⟩, ⟨wy 11, 1, 0⟩] := by decide
+
+example : oneLevel (build demo) (wy 11) [.relation] = false ∧ oneLevel (build demo) (⟨.relation, 1, 50⟩) [.relation] = true := by decide
+
+/-- **the hypothesis `oneLevel` is needed**: relation 50 contains way 11, which passes through point 4. The
+in-memory world's `FindRelationsByFeature(point 4)` returns relations 50 and 51, the compact world's returns
+nothing (finding `compact-references-partial`). -/
+theorem references_oneLevel_counterexample :
+    relsB (build demo) (n 4) = [⟨.relation, 1, 50⟩, ⟨.relation, 1, 51⟩] ∧ relsC (build demo) (n 4) = [] := by decide
+
+end B6.Props.C02
